@@ -252,13 +252,15 @@ func runC16(c *Ctx) {
 			if p.Ret == nil || len(p.Results) != 2 || !exprIsNil(p.Results[1]) {
 				continue
 			}
-			dep := false
+			// a path counts as "possibly deprecated" unless it established Deprecated == false (the lifetime
+			// tests may come first and make the Deprecated test unnecessary)
+			nonDep := false
 			for _, a := range p.Atoms {
-				if a.Cond.IsField("Deprecated") && a.Pos {
-					dep = true
+				if a.Cond.IsField("Deprecated") && !a.Pos {
+					nonDep = true
 				}
 			}
-			if !dep {
+			if nonDep {
 				continue
 			}
 			flds := raHeader(p.Results[0])
